@@ -217,7 +217,7 @@ def run_unit(repo, unit, contracts_dir, tier='quick', jobs=8, keep=False, known=
             wt = threading.Thread(target=lambda: wout.update(search_phase(d, feats, w_h, tier)))
             wt.start()
         if k_h:
-            _kani_phase(d, feats, k_h, jobs, res, known)
+            _kani_phase(d, feats, k_h, jobs, res, known, tier)
         else:
             res['status'] = 'ok'
         if wt:
@@ -320,7 +320,7 @@ def search_phase(d, feats, w_h, tier):
     return out
 
 
-def _kani_phase(d, feats, harnesses, jobs, res, known=()):
+def _kani_phase(d, feats, harnesses, jobs, res, known=(), tier='quick'):
     if True:
         env = dict(os.environ)
         env['CARGO_NET_OFFLINE'] = 'true'
@@ -328,6 +328,10 @@ def _kani_phase(d, feats, harnesses, jobs, res, known=()):
         os.makedirs(CACHE, exist_ok=True)
         jpath = os.path.join(d, 'kani-export.json')
         tmo = max(h['timeout'] for h in harnesses)
+        if tier == 'quick':
+            # the check meant to run on every change stays bounded on a changed tree too: a complete harness
+            # without an answer by then makes the unit undecided, a bounded one is a note
+            tmo = min(tmo, 600)
         cmd = ['cargo', 'kani', '--lib', '--features', feats, '-Z', 'function-contracts', '-Z', 'stubbing',
                '-Z', 'unstable-options', '--output-format=terse', '-j', str(jobs), '--export-json', jpath,
                '--harness-timeout', '%ds' % tmo]
